@@ -85,12 +85,32 @@ pub(crate) fn add(ctx: &mut TulispContext) {
 
     #[crate_fn(add_func = "ctx", name = "mod")]
     fn impl_mod(dividend: TulispObject, divisor: TulispObject) -> Result<TulispObject, Error> {
+        // The result has the sign of the divisor.
+        fn float_mod(s: &f64, o: &f64) -> f64 {
+            let r = s % o;
+            if r != 0.0 && ((r < 0.0) != (*o < 0.0)) {
+                r + o
+            } else {
+                r
+            }
+        }
+        fn int_mod(s: i64, o: i64) -> Option<i64> {
+            if o == -1 {
+                return Some(0);
+            }
+            let r = s.checked_rem(o)?;
+            if r != 0 && ((r < 0) != (o < 0)) {
+                Some(r + o)
+            } else {
+                Some(r)
+            }
+        }
         if divisor.integerp() && dividend.integerp() && divisor.as_int()? == 0 {
             return Err(Error::new(
                 ErrorKind::Undefined,
                 "Division by zero".to_string(),
             ));
         }
-        binary_ops!(std::ops::Rem::rem, i64::checked_rem)(&dividend, &divisor)
+        binary_ops!(float_mod, int_mod)(&dividend, &divisor)
     }
 }
